@@ -2286,6 +2286,17 @@ impl<'i, R: XmlRead<'i>, E: EntityResolver> XmlReader<'i, R, E> {
     /// [`CData`]: PayloadEvent::CData
     fn drain_text(&mut self, mut result: Cow<'i, str>) -> Result<DeEvent<'i>, DeError> {
         loop {
+            // A DOCTYPE inside a text is not well-formed, but the reader reports it
+            // as an event. Skip it like a comment, so the text pieces around it are
+            // merged and two consequent `Text` events are never returned
+            if matches!(self.lookahead, Ok(PayloadEvent::DocType(_))) {
+                if let PayloadEvent::DocType(e) = self.next_impl()? {
+                    self.entity_resolver
+                        .capture(e)
+                        .map_err(|err| DeError::Custom(format!("cannot parse DTD: {}", err)))?;
+                }
+                continue;
+            }
             if self.current_event_is_last_text() {
                 break;
             }
